@@ -5,7 +5,7 @@ rows = []
 for f in sorted(glob.glob('/verif/seeded/*/meta.json')):
     d = json.load(open(f))
     notes = open(f.replace('meta.json', 'notes.md')).read().strip().splitlines()[0]
-    title = re.sub(r'^#\s*C\d\d\s*[/ -]*\s*m\d\s*[-:]*\s*', '', notes).strip()
+    title = re.sub(r'^#\s*C\d\d\s*[/ -]*\s*m\d+\s*[-:]*\s*', '', notes).strip()
     det = d.get('detected_by') or {}
     cells = []
     for p, r in det.items():
@@ -18,6 +18,9 @@ for f in sorted(glob.glob('/verif/seeded/*/meta.json')):
                 s = re.sub(r'^C\d\d_', '', s)
                 sigs.append(s)
                 nfi = nfi or 'no-failing-input-found' in x
+        if r.get('exit') == 0:
+            cells.append(f"{p}: not reported (outside the property under the transport contract, see the round's paragraph)")
+            continue
         cells.append(f"{p}: " + ", ".join(f"`{s}`" for s in sigs[:3]) + (" (no failing input found)" if nfi and len(sigs) == 1 else ""))
     rows.append(f"| {d['id']} | {title} | {'; '.join(cells)} |")
 print("| change | what it does (title of its notes.md) | reported by (clauses of the quick check, replay file names) |")
